@@ -84,7 +84,8 @@ struct ForkOut
 
 static std::string read_file (const std::string &p)
 {	std::string s ; FILE *f = fopen (p.c_str (), "rb") ; if (!f) return s ;
-	char b [65536] ; size_t n ; while ((n = fread (b, 1, sizeof (b), f)) > 0) s.append (b, n) ; fclose (f) ; return s ;
+	// at most 4 MiB: a worker spinning in a loop that logs can leave gigabytes behind
+	char b [65536] ; size_t n ; while (s.size () < (4u << 20) && (n = fread (b, 1, sizeof (b), f)) > 0) s.append (b, n) ; fclose (f) ; return s ;
 }
 
 static std::string g_tmpdir = "/verif/build/tmp" ;
@@ -570,6 +571,9 @@ static int cmd_shrink (const Args &a)
 	const Profile *prof = find_profile (plan.gets ("profile")) ;
 	if (!prof) return 2 ;
 	int budget = (int) a.geti ("budget", 400), used = 0 ;
+	// a hang is re-confirmed by the watchdog in every candidate that still hangs: a few CPU seconds without progress are enough here
+	// (the reported plan is confirmed again with the full limit by the gate), and the number of candidates stays small
+	if (sig.find (".watchdog|") != std::string::npos) { g_fork_wd = 5 ; if (!a.kv.count ("budget")) budget = 40 ; }
 	auto fails = [&] (const J &p) -> bool { if (used >= budget) return false ; used ++ ; J rep = run_plan_report (*prof, p) ; return has_sig (rep, sig) ; } ;
 	if (!fails (plan)) { fprintf (stderr, "shrink: original plan does not reproduce %s\n", sig.c_str ()) ; return 2 ; }
 	// 1. tasks
